@@ -14,6 +14,7 @@ pub mod refmodel;
 pub mod report;
 #[cfg(fast_tlsh_verif)]
 pub mod sched;
+pub mod seq;
 pub mod streams;
 pub mod transcript;
 pub mod variant;
@@ -81,6 +82,9 @@ pub fn run_check(id: &str, r: &mut Report, ctx: &Ctx) -> bool {
 }
 
 pub fn replay(id: &str, case: &serde_json::Value) -> Result<(), String> {
+    if case["kind"].as_str() == Some("sequence") {
+        return seq::replay(case);
+    }
     match id {
         "C01" => checks::c01::replay(case),
         "C02" => checks::c02::replay(case),
